@@ -197,3 +197,7 @@ static inline _Bool spd_registered(struct map_pair_U_U_vec_idl_distancep before,
                    timeout=3000, mem_gb=24, mem_est=4, force_types=['std::vector<std::vector<long>>'],
                    bounded='%d time points, |dist| <= 64, <= 1 pair with one registered constraint before the call' % d['XT_NTP']))
     return out
+
+
+# what the evidence file says is NOT decided by this module, and what it assumes
+INFO = {'not_under_contract': ['rdl_theory (relations and queries over inf_rational): same code shape, NOT verified; its bounds/distance/equates were seen to share defects repaired in idl_theory', 'new_distance(from, to, min, max)', 'arithmetic on the inf() sentinel inside the relation functions (finite matrices only there)', 'core.cpp / item.cpp routing of time-point expressions'], 'assumptions': ['the literal returned by new_distance for an open constraint means its constraint in every combined model: enforced by propagate (C10), definitional in these jobs']}
